@@ -1082,9 +1082,9 @@ Lemma ns_admit_spec cv una cw : forall sq sb nxt n sq' sb' nxt' n',
   exists pre adm, sq = pre ++ sq' /\ sb' = sb ++ adm /\ Forall2 (ns_adm cv) pre adm.
 Proof.
   induction sq as [|s t IH]; intros sb nxt n sq' sb' nxt' n' H; cbn [admit] in H.
-  - inversion H; subst. exists [], []. rewrite app_nil_r. repeat split. constructor.
+  - inversion H; subst. exists [], []. split; [reflexivity|]. split; [symmetry; apply app_nil_r|constructor].
   - destruct (itimediff nxt (u32 (una + cw)) >=? 0).
-    + inversion H; subst. exists [], []. rewrite app_nil_r. repeat split. constructor.
+    + inversion H; subst. exists [], []. split; [reflexivity|]. split; [symmetry; apply app_nil_r|constructor].
     + destruct (IH _ _ _ _ _ _ _ H) as (pre & adm & E1 & E2 & F).
       eexists (s :: pre), (_ :: adm). split; [cbn [app]; rewrite E1; reflexivity|].
       split; [rewrite E2, <- app_assoc; reflexivity|].
@@ -1097,7 +1097,7 @@ Lemma ns_ph4_spec k3 ft sq sb nxt ns :
 Proof.
   unfold ns_ph4. destruct (ft =? FLUSH_FULL).
   - apply ns_admit_spec.
-  - intros H; inversion H; subst. exists [], []. rewrite app_nil_r. repeat split. constructor.
+  - intros H; inversion H; subst. exists [], []. split; [reflexivity|]. split; [symmetry; apply app_nil_r|constructor].
 Qed.
 
 (* ---- phase 5 ---- *)
@@ -1145,8 +1145,8 @@ Proof.
   { intros [[[[ns rto] rts] fa] a1] HH Hst1. cbv beta iota zeta in HH, Hst1. destruct ns.
     - destruct (stage_write k _ _) as [st2|w] eqn:Ew; [|discriminate]. inversion HH; subst s' a'. clear HH.
       split; [unfold ns_keep; ns_segf; auto 10|]. cbn [f_st]. intros Hst He.
-      eapply ns_write_ok; [apply ns_space_ok; rewrite Hst1; exact Hst| |exact Ew].
-      apply He. exact Ea.
+      assert (Hst' : ns_stage_ok P (f_st a1)) by (rewrite Hst1; exact Hst).
+      exact (ns_write_ok P k _ _ _ (ns_space_ok P k _ _ Hst') (He Ea _ _ _ _) Ew).
     - inversion HH; subst s' a'. split; [unfold ns_keep; ns_segf; auto 10|]. cbn [f_st].
       rewrite Hst1. auto. }
   apply (Hgen _ H).
@@ -1199,3 +1199,275 @@ Proof.
   induction 1 as [|s s' t t' (K1 & _) _ IH]; intros b Hc; [exact I|].
   cbn [contiguous] in *. destruct Hc as [H1 H2]. split; [rewrite <- K1; exact H1|apply IH; exact H2].
 Qed.
+
+(* ================================================================== *)
+(* 6. the sender invariant across the pieces                           *)
+(* ================================================================== *)
+Lemma ns_stream_form N q : stream_bytes N ++ concat (map s_data q) = stream_bytes (N ++ map pay q).
+Proof. unfold stream_bytes. rewrite map_app, concat_app, ns_map_snd_pay. reflexivity. Qed.
+
+Lemma ns_matches_pay l : Forall2 sb_matches l (map pay l).
+Proof.
+  induction l as [|s t IH]; [constructor|]. cbn [map]. constructor; [|exact IH].
+  unfold sb_matches, pay. cbn [fst snd]. auto.
+Qed.
+
+Lemma ns_matches_trans (R : seg -> seg -> Prop) :
+  (forall s s' p, R s s' -> sb_matches s p -> sb_matches s' p) ->
+  forall l l', Forall2 R l l' -> forall m, Forall2 sb_matches l m -> Forall2 sb_matches l' m.
+Proof.
+  intros HR l l' H. induction H as [|s s' t t' Hs _ IH]; intros m Hm.
+  - inversion Hm; subst. constructor.
+  - inversion Hm as [|x p y rest Hp Ht]; subst. constructor; [exact (HR _ _ _ Hs Hp)|exact (IH _ Ht)].
+Qed.
+
+Lemma ns_husk_matches s s' p : ns_husk s s' -> sb_matches s p -> sb_matches s' p.
+Proof.
+  unfold ns_husk, sb_matches. intros (_ & H2 & H3) (M1 & M2).
+  split; [congruence|]. destruct H3 as [H3|[H3 H4]]; [left; exact H3|].
+  destruct M2 as [M2|M2]; [left; congruence|right; congruence].
+Qed.
+
+Lemma ns_keep_matches s s' p : ns_keep s s' -> sb_matches s p -> sb_matches s' p.
+Proof.
+  unfold ns_keep, sb_matches. intros (_ & K2 & K3 & K4 & _) (M1 & M2).
+  split; [congruence|]. destruct M2 as [M2|M2]; [left; congruence|right; congruence].
+Qed.
+
+Lemma ns_F2_in (A B : Type) (R : A -> B -> Prop) l l' :
+  Forall2 R l l' -> forall x, In x l -> exists y, In y l' /\ R x y.
+Proof.
+  induction 1 as [|a b t t' Hab _ IH]; intros x Hin; [contradiction|].
+  destruct Hin as [E|Hin].
+  - subst x. exists b. split; [left; reflexivity|exact Hab].
+  - destruct (IH x Hin) as (y & Hy & Hr). exists y. split; [right; exact Hy|exact Hr].
+Qed.
+
+(* a live element of snd_buf is a numbered payload, under its own number *)
+Lemma ns_sb_lookup isn N' : forall sb a,
+  contiguous (u32 (isn + Z.of_nat a)) sb -> Forall2 sb_matches sb (skipn a N') ->
+  forall s, In s sb -> s_acked s <> 1 ->
+  exists i, (i < length N')%nat /\ s_sn s = u32 (isn + Z.of_nat i) /\
+            nth_error N' i = Some (s_frg s, s_data s).
+Proof.
+  induction sb as [|e t IH]; intros a Hc HF s Hin Hack; [contradiction|].
+  inversion HF as [|e0 p t0 rest Hm Ht E0 E1]; subst e0 t0.
+  assert (Hnth : nth_error N' a = Some p).
+  { pose proof (ns_nth_skipn _ a N' 0) as H. rewrite <- E1, Nat.add_0_r in H. cbn [nth_error] in H.
+    symmetry. exact H. }
+  assert (Hrest : rest = skipn (S a) N').
+  { pose proof (ns_skipn_skipn _ 1 a N') as H. rewrite <- E1 in H. cbn [skipn] in H.
+    rewrite Nat.add_1_r in H. exact H. }
+  assert (Hlt : (a < length N')%nat) by (apply nth_error_Some; rewrite Hnth; discriminate).
+  cbn [contiguous] in Hc. destruct Hc as [Hc1 Hc2].
+  destruct Hin as [E|Hin].
+  - subst s. exists a. split; [exact Hlt|]. split; [exact Hc1|].
+    rewrite Hnth. destruct p as [f d]. destruct Hm as [M1 M2]. cbn [fst snd] in *.
+    destruct M2 as [M2|M2]; [contradiction|]. rewrite M1, M2. reflexivity.
+  - apply (IH (S a)); try assumption.
+    + rewrite u32_add_mod in Hc2. replace (isn + Z.of_nat (S a)) with (isn + Z.of_nat a + 1) by lia. exact Hc2.
+    + rewrite <- Hrest. exact Ht.
+Qed.
+
+Lemma ns_dg_genuine isn src d : ns_dg (ns_P isn src) d -> genuine_dgram isn src d.
+Proof.
+  intros (segs & E & F). exists segs. split; [exact E|].
+  split; (eapply Forall_impl; [|exact F]); intros s [H1 H2]; assumption.
+Qed.
+
+(* ---- Input before its flush ---- *)
+Lemma ns_pre_sender g k k1 :
+  sender_inv g k -> ns_pre k k1 -> inv k1 ->
+  sender_inv g k1 /\ stream k1 = stream k /\
+  exists j, (j <= length (snd_buf k))%nat /\ snd_una k1 = u32 (snd_una k + Z.of_nat j) /\
+            length (snd_buf k1) = (length (snd_buf k) - j)%nat.
+Proof.
+  intros [Hinv [Hisn Hconv] Hwf Hacks (a & Ha & Huna & Hsb) Hstr Hmsg Hbd] Hpre Hinv1.
+  destruct (ns_pre_una k k1 Hinv Hinv1 Hpre) as (j & Hj & Hu & HF).
+  destruct Hpre as (_ & Hq & Hn & Hc & Hs & Hal).
+  pose proof (ns_F2_length _ _ _ _ _ Hsb) as Hl1. rewrite skipn_length in Hl1.
+  pose proof (ns_F2_length _ _ _ _ _ HF) as Hl2. rewrite skipn_length in Hl2.
+  split; [|split; [exact Hs|exists j; split; [exact Hj|split; [exact Hu|lia]]]].
+  constructor; rewrite ?Hq, ?Hc, ?Hs; try assumption.
+  - split; assumption.
+  - apply Hal. exact Hacks.
+  - exists (a + j)%nat. split; [lia|]. split.
+    + rewrite Hu, Huna, u32_add_mod. f_equal. lia.
+    + rewrite <- ns_skipn_skipn.
+      apply (ns_matches_trans ns_husk ns_husk_matches _ _ HF). apply ns_F2_skipn. exact Hsb.
+Qed.
+
+(* ---- flush ---- *)
+Lemma ns_flush_sender g k ft now k' nx o ext :
+  sender_inv g k -> is_u32 now -> flush k ft now = Ok (k', nx, o) -> inv k' ->
+  ext = map pay (skipn (length (snd_buf k)) (snd_buf k')) ->
+  sender_inv (mkSG (sg_isn g) (sg_numbered g ++ ext) (sg_accepted g)) k' /\
+  Forall (genuine_dgram (sg_isn g) (sg_numbered g ++ ext)) o /\
+  snd_una k' = snd_una k /\ stream k' = stream k.
+Proof.
+  intros [Hinv [Hisn Hconv] Hwf Hacks (a & Ha & Huna & Hsb) Hstr Hmsg Hbd] Hnow Hfl Hinv' Eext.
+  destruct (ns_flush_invert _ _ _ _ _ _ Hfl)
+    as (h1 & st1 & k1 & st2 & st3 & sq & sb & nxt & ns & sb' & fa & E1 & E2 & E3 & E4 & E5 & Ek & Eo).
+  set (N := sg_numbered g) in *. set (isn := sg_isn g) in *.
+  (* bookkeeping *)
+  assert (F1 : snd_queue k1 = snd_queue k /\ snd_buf k1 = snd_buf k /\ snd_una k1 = snd_una k /\
+               conv k1 = conv k /\ stream k1 = stream k /\ (acklist k1 = [] \/ acklist k1 = acklist k)).
+  { destruct (ns_ph1_k _ _ _ _ _ E1) as [E|E]; subst k1; ksimpl; auto 10. }
+  destruct F1 as (Fq & Fb & Fu & Fc & Fs & Fa).
+  pose proof (ns_sf_ph2 k1 now) as (Gq & Gb & Gu & _ & Gc & Gs & Ga).
+  set (k2 := ns_ph2 k1 now) in *. set (k3 := set_probe_flags k2 0) in *.
+  destruct (ns_ph4_spec _ _ _ _ _ _ E4) as (pre & adm & Eq & Esb & Hadm).
+  change (snd_queue k3) with (snd_queue k2) in Eq. change (snd_buf k3) with (snd_buf k2) in Esb.
+  rewrite Gq, Fq in Eq. rewrite Gb, Fb in Esb.
+  set (k4 := ns_k4 k3 sq sb nxt) in *.
+  pose proof (ns_sf_ph6 (ns_k5 k4 sb' fa) fa (ns_cw k3) (ns_resent k4)) as (Pq & Pb & Pu & _ & Pc & Ps & Pa).
+  rewrite <- Ek in Pq, Pb, Pu, Pc, Ps, Pa.
+  pose proof (ns_k5_fields k4 sb' fa) as (Qq & Qb & Qu & Qc & Qs & Qa).
+  assert (Kq : snd_queue k' = sq) by (rewrite Pq, Qq; reflexivity).
+  assert (Kb : snd_buf k' = sb') by (rewrite Pb, Qb; reflexivity).
+  assert (Ku : snd_una k' = snd_una k).
+  { rewrite Pu, Qu. change (snd_una k4) with (snd_una k2). rewrite Gu, Fu. reflexivity. }
+  assert (Kc : conv k' = conv k).
+  { rewrite Pc, Qc. change (conv k4) with (conv k2). rewrite Gc, Fc. reflexivity. }
+  assert (Ks : stream k' = stream k).
+  { rewrite Ps, Qs. change (stream k4) with (stream k2). rewrite Gs, Fs. reflexivity. }
+  assert (Ka : acklist k' = [] \/ acklist k' = acklist k).
+  { rewrite Pa, Qa. change (acklist k4) with (acklist k2). rewrite Ga. exact Fa. }
+  (* what was admitted *)
+  destruct (ns_ph5_ok (fun _ => True) _ _ _ _ _ _ _ _ E5) as [Hkeep _].
+  change (snd_buf k4) with sb in Hkeep.
+  assert (Eext' : ext = map pay adm).
+  { rewrite Eext, Kb. rewrite Esb in Hkeep.
+    destruct (Forall2_app_inv_l _ _ Hkeep) as (l1 & l2 & K1 & K2 & El). rewrite El.
+    rewrite (ns_F2_length _ _ _ _ _ K1), ns_skipn_app_len. exact (ns_keep_pay _ _ K2). }
+  assert (Epre : map pay adm = map pay pre) by exact (ns_adm_pay _ _ _ Hadm).
+  set (N' := N ++ ext) in *.
+  assert (EL : N' ++ map pay sq = N ++ map pay (snd_queue k)).
+  { unfold N'. rewrite Eext', Epre, Eq, map_app, app_assoc. reflexivity. }
+  (* snd_buf after admission, against the extended numbering *)
+  assert (Hc : contiguous (u32 (isn + Z.of_nat a)) sb).
+  { rewrite <- Huna, <- Ku. apply (ns_keep_contig _ _ Hkeep). rewrite <- Kb. exact (I_sb_contig _ Hinv'). }
+  assert (Hm : Forall2 sb_matches sb (skipn a N')).
+  { unfold N'. rewrite ns_skipn_app_le by exact Ha. rewrite Esb, Eext'.
+    apply Forall2_app; [exact Hsb|apply ns_matches_pay]. }
+  assert (HwfN : Forall ns_pay_ok N').
+  { rewrite <- EL in Hwf. apply ns_src_wf_iff in Hwf. destruct Hwf as [Hf _].
+    apply Forall_app in Hf. exact (proj1 Hf). }
+  (* outputs *)
+  destruct (ns_ph1_ok isn N' _ _ _ _ _ Hacks Hconv (I_rnxt_u32 _ Hinv) E1) as [Hh1 Hst1].
+  pose proof (ns_ph3_ok isn N' _ _ _ _ _ _ Hh1 (or_introl eq_refl) Hst1 E2) as Hst2.
+  pose proof (ns_ph3_ok isn N' _ _ _ _ _ _ Hh1 (or_intror eq_refl) Hst2 E3) as Hst3.
+  destruct (ns_ph5_ok (ns_P isn N') _ _ _ _ _ _ _ _ E5) as [_ Hst5].
+  change (snd_buf k4) with sb in Hst5.
+  assert (Hemit : Forall (ns_emit_ok (ns_P isn N') h1 now) sb).
+  { apply Forall_forall. intros s Hin Hack rto xm rts fa0.
+    destruct (ns_sb_lookup isn N' sb a Hc Hm s Hin Hack) as (i & Hi & Hsn & Hnth).
+    destruct (ns_F2_in _ _ _ _ _ Hkeep s Hin) as (s' & Hin' & (_ & _ & _ & _ & C5 & C6)).
+    rewrite <- Kb in Hin'.
+    pose proof (proj1 (Forall_forall _ _) (I_sb_push _ Hinv') s' Hin') as [P1 P2].
+    rewrite C5, Kc in P1. rewrite C6 in P2.
+    pose proof (proj1 (Forall_forall _ _) HwfN _ (nth_error_In _ _ Hnth)) as (W1 & W2 & W3).
+    cbn [fst snd] in W1, W2, W3.
+    destruct Hh1 as (H1 & H2 & H3 & H4 & H5 & H6 & H7).
+    split.
+    - unfold seg_wf. ns_segf. rewrite P1, P2, Hsn.
+      split; [exact Hconv|]. split; [unfold c_IKCP_CMD_PUSH; lia|]. split; [lia|].
+      split; [exact H4|]. split; [exact Hnow|]. split; [apply u32_range|]. split; [exact H7|].
+      split; assumption.
+    - unfold genuine_seg. ns_segf. intros _. exists i. split; [exact Hi|]. split; [exact Hsn|].
+      unfold pay. ns_segf. exact Hnth. }
+  pose proof (ns_buffer_ok _ _ (Hst5 Hst3 Hemit)) as Hout. rewrite <- Eo in Hout.
+  split; [|split; [|split; [exact Ku|exact Ks]]].
+  - constructor; cbn [sg_isn sg_numbered sg_accepted]; fold N'; rewrite ?Kq, ?Kc, ?Ks, ?Ku, ?Kb.
+    + exact Hinv'.
+    + split; assumption.
+    + rewrite EL. exact Hwf.
+    + destruct Ka as [Ka|Ka]; rewrite Ka; [constructor|exact Hacks].
+    + exists a. split; [unfold N'; rewrite app_length; lia|]. split; [exact Huna|].
+      exact (ns_matches_trans ns_keep ns_keep_matches _ _ Hkeep _ Hm).
+    + intros Hs. rewrite ns_stream_form, EL, <- ns_stream_form. exact (Hstr Hs).
+    + intros Hs. rewrite EL. exact (Hmsg Hs).
+    + rewrite EL. exact Hbd.
+  - eapply Forall_impl; [|exact Hout]. intros d. apply ns_dg_genuine.
+Qed.
+
+(* ---- the ghost list of a call ---- *)
+Lemma ns_newly_shift k k' j :
+  inv k -> (j <= length (snd_buf k))%nat -> snd_una k' = u32 (snd_una k + Z.of_nat j) ->
+  newly_numbered k k' = map pay (skipn (length (snd_buf k) - j) (snd_buf k')).
+Proof.
+  intros Hinv Hj Hu. unfold newly_numbered. cbv zeta.
+  assert (E : u32 (snd_una k' - snd_una k) = Z.of_nat j).
+  { pose proof (I_una_u32 _ Hinv) as H1. pose proof (I_sb_wnd _ Hinv) as H2.
+    pose proof (I_snd_wnd _ Hinv) as H3. unfold qlen in H2. rewrite Hu.
+    unfold is_u32, u32, W32 in *. lia. }
+  rewrite E, Nat2Z.id. reflexivity.
+Qed.
+
+Lemma ns_newly_same k k' :
+  inv k -> snd_una k' = snd_una k ->
+  newly_numbered k k' = map pay (skipn (length (snd_buf k)) (snd_buf k')).
+Proof.
+  intros Hinv Hu. rewrite (ns_newly_shift k k' 0 Hinv); [rewrite Nat.sub_0_r; reflexivity|lia|].
+  cbn [Z.of_nat]. rewrite Z.add_0_r, u32_id by exact (I_una_u32 _ Hinv). exact Hu.
+Qed.
+
+Lemma ns_newly_nil k k' :
+  inv k -> snd_una k' = snd_una k -> snd_buf k' = snd_buf k -> newly_numbered k k' = [].
+Proof. intros Hinv Hu Hb. rewrite (ns_newly_same k k' Hinv Hu), Hb, skipn_all. reflexivity. Qed.
+
+(* a call that leaves snd_buf, snd_una and the acklist alone *)
+Lemma ns_quiet g k k' A' :
+  sender_inv g k -> inv k' ->
+  snd_buf k' = snd_buf k -> snd_una k' = snd_una k -> conv k' = conv k -> stream k' = stream k ->
+  acklist k' = acklist k ->
+  ns_src_ok (stream k) (sg_numbered g) (snd_queue k') A' ->
+  sender_inv (mkSG (sg_isn g) (sg_numbered g ++ newly_numbered k k') A') k'.
+Proof.
+  intros [Hinv [Hisn Hconv] Hwf Hacks Huna Hstr Hmsg Hbd] Hinv' Eb Eu Ec Es Ea (S1 & S2 & S3 & S4).
+  rewrite (ns_newly_nil k k' Hinv Eu Eb), app_nil_r.
+  constructor; cbn [sg_isn sg_numbered sg_accepted]; rewrite ?Eb, ?Eu, ?Ec, ?Es, ?Ea; try assumption.
+  split; assumption.
+Qed.
+
+Lemma ns_src_ok_of g k : sender_inv g k -> ns_src_ok (stream k) (sg_numbered g) (snd_queue k) (sg_accepted g).
+Proof.
+  intros [_ _ Hwf _ _ Hstr Hmsg Hbd]. split; [exact Hwf|]. split; [exact Hbd|]. split; assumption.
+Qed.
+
+Lemma ns_sf_do_move_ready k : ns_sf k (do_move_ready k).
+Proof.
+  unfold do_move_ready.
+  destruct (move_ready (rcv_buf k) (rcv_queue k) (rcv_nxt k) (rcv_wnd k)) as [[rb rq] rn]. repeat split.
+Qed.
+
+Lemma ns_sf_recv k n : ns_sf k (fst (fst (recv k n))).
+Proof.
+  unfold recv. cbv zeta.
+  destruct (peeksize k <? 0); [apply ns_sf_refl|].
+  destruct (peeksize k >? n); [apply ns_sf_refl|].
+  destruct (pop_msg (rcv_queue k)) as [d rq].
+  pose proof (ns_sf_do_move_ready (set_rcv_queue k rq)) as H.
+  set (k1 := do_move_ready (set_rcv_queue k rq)) in *.
+  assert (H1 : ns_sf k k1) by (eapply ns_sf_trans; [|exact H]; repeat split).
+  destruct ((qlen (rcv_queue k1) <? rcv_wnd k1) && (qlen (rcv_queue k) >=? rcv_wnd k)); cbn [fst]; [|exact H1].
+  eapply ns_sf_trans; [exact H1|]. repeat split.
+Qed.
+
+Lemma ns_sf_set_mtu k m : ns_sf k (fst (set_mtu k m)).
+Proof.
+  unfold set_mtu. destruct ((m <=? c_IKCP_OVERHEAD) || (m >? c_mtuLimit)); [apply ns_sf_refl|].
+  destruct (max_queued k >? m - c_IKCP_OVERHEAD); [apply ns_sf_refl|]. repeat split.
+Qed.
+
+Lemma ns_sf_set_nodelay k nd iv rs nc : ns_sf k (set_nodelay k nd iv rs nc).
+Proof. unfold set_nodelay. destruct (nd >=? 0); repeat split. Qed.
+
+Lemma ns_sender_inv_timer g k st tsf upd : sender_inv g k -> sender_inv g (set_timer k st tsf upd).
+Proof.
+  intros [Hinv Hisn Hwf Hacks Huna Hstr Hmsg Hbd].
+  constructor; ksimpl; try assumption. apply inv_set_timer. exact Hinv.
+Qed.
+
+Lemma ns_newly_timer k st tsf upd k' : newly_numbered (set_timer k st tsf upd) k' = newly_numbered k k'.
+Proof. reflexivity. Qed.
